@@ -10,9 +10,9 @@
          f32 : s                                 f64 : s as f32
     3. What kira + symphonia do with a file in the canonical 44-byte-header layout
        ([sym_load]): symphonia-format-riff's chunk reader checks, the fmt-chunk checks, the
-       simulated packetisation of [next_packet] (1152 blocks of the header's block_align, a
-       packet that cannot be read completely is an UnexpectedEof, which kira's loop turns into
-       "end of audio"), symphonia-codec-pcm's decode of one packet (at most 1152 frames of
+       simulated packetisation of [next_packet] (1152 blocks of the header's block_align; when
+       the source ends early the last packet is short, and the following read of nothing is an
+       UnexpectedEof, which kira's loop turns into "end of audio"), symphonia-codec-pcm's decode of one packet (at most 1152 frames of
        channels * width bytes, a trailing partial frame is dropped), kira's
        [load_frames_from_buffer] (mono duplicated, stereo, otherwise
        UnsupportedChannelConfiguration) and the packet loop of
@@ -210,7 +210,12 @@ Fixpoint sym_packets (fuel block left : nat) (data : list byte) : list (list byt
       | _ =>
           let plen := (Nat.min blocks_left PKT * block)%nat in
           match take_exact plen data with
-          | None => []                            (* read_boxed_slice: UnexpectedEof *)
+          | None =>                               (* the source ends inside the packet: *)
+              match data with
+              | [] => []                          (* nothing read: UnexpectedEof *)
+              | _ => [data]                       (* read_boxed_slice returns the short read; the
+                                                     next call reads nothing and ends the loop *)
+              end
           | Some (p, rest) => p :: sym_packets fuel' block (left - plen) rest
           end
       end
@@ -333,4 +338,26 @@ Section Scheduler.
   (** [DecodeScheduler::new]: the decoder is first sent to the start position *)
   Definition sched_new (start : nat) : sched :=
     let j := dec_seek start in {| dpos := j; cur := j; chunk := None |}.
+
+  (** the scheduler's [run] loop without loop region: which (frame, index) pairs reach the
+      ring.  [STick] = one iteration of [run] (frame_at_index(position), push, increment
+      position, end when position >= num_frames); [SSeek i] = a seek_to command *)
+  Inductive sop := STick | SSeek (i : nat).
+  Fixpoint run_stream (fuel n : nat) (s : sched) (pos : nat) (ops : list sop) : outcome (list (option F * nat)) :=
+    match ops with
+    | [] => Ok []
+    | SSeek i :: ops' => run_stream fuel n (seek_to_index s i) i ops'
+    | STick :: ops' =>
+        let! (r, s') := frame_at_index fuel n s pos in
+        if (n <=? S pos)%nat then Ok [(r, pos)]
+        else let! rest := run_stream fuel n s' (S pos) ops' in Ok ((r, pos) :: rest)
+    end.
 End Scheduler.
+
+(** the transport order, a function of the history alone *)
+Fixpoint positions (n pos : nat) (ops : list sop) : list nat :=
+  match ops with
+  | [] => []
+  | SSeek i :: ops' => positions n i ops'
+  | STick :: ops' => pos :: (if (n <=? S pos)%nat then [] else positions n (S pos) ops')
+  end.
